@@ -20,6 +20,7 @@ from mc.common import call, Raised, DimArray, MultiAxis, py, same_scalar, same_l
 from mc.props import c10
 
 ID = "C11"
+OEO = True      # a third of the cases get a second pass on the same array after an in-place edit (engine._oeo)
 VARIANT_SWEEP = True      # thorough tier: every case on every history variant of its array (see mc/domains.py VSHIFT)
 TITLE = "flatten / unflatten / reshape group dimensions losslessly"
 RULE = ("product of (arrays 1-4D with axes of different kinds and lengths, plus variants with a singleton dimension) x "
